@@ -47,7 +47,8 @@ REQUIRED = {'orders_executed': 1000, 'call_logs_compared': 1000, 'successful_sta
             'failed_starts': 200, 'early_init_events': 100, 'async_timeouts': 50,
             'restored_blocks': 100, 'expired_states': 30, 'first_eval_failures': 20,
             'first_eval_failure_with_async_cleanup': 10, 'verdict_sets_compared': 200,
-            'wait_bounded_checked': 500, 'valuepoll_cases': 50, 'initasync_cases': 50}
+            'wait_bounded_checked': 500, 'valuepoll_cases': 50, 'initasync_cases': 50,
+            'shutdown_in_first_evaluation': 10}
 SHARDS = {'quick': 16, 'thorough': 16}
 TIMEOUT = {'quick': 300, 'thorough': 3000}
 
@@ -176,6 +177,8 @@ def model(spec, order):
             raise Fail("input fed by InitAsync not initialized")
         if spec.get('calc') in ('raise', 'undef'):
             raise Fail("first evaluation")
+        if spec.get('calc') == 'shutdown':
+            raise Fail("shutdown requested in the first evaluation")
         ok = True
     except Fail as err:
         ok = str(err)
@@ -223,7 +226,14 @@ def run_order(spec, order, ctx):
                     if spec['calc'] == 'undef':
                         return edzed.UNDEF      # a combinational output must never be UNDEF
                     return 0
-                objs['#calc'] = edzed.FuncBlock('calc', func=cf).connect(spec['blocks'][0]['name'])
+                kw = {}
+                if spec['calc'] == 'shutdown':
+                    # the very first evaluation makes the block send 'shutdown' to the control
+                    # block: the simulation is stopping (normally) while somebody waits for the
+                    # end of the initialisation
+                    kw['on_output'] = edzed.Event('_ctrl', 'shutdown')
+                objs['#calc'] = edzed.FuncBlock('calc', func=cf, **kw).connect(
+                    spec['blocks'][0]['name'])
                 continue
             if name == '#astop':
                 objs['#astop'] = probes.make_probe(
@@ -348,6 +358,11 @@ def judge_order(spec, order, hist, res, ctx):
                 f"error={res['error_at_return']!r} (model: {ok})")
         if not res['ready_later'] and ok is True:
             raise core.Violation('simulation-died-after-init', f"{where}: {res['error']!r}")
+    elif ok == "shutdown requested in the first evaluation":
+        ctx.count('shutdown_in_first_evaluation')
+        if not isinstance(res['error'], asyncio.CancelledError):
+            raise core.Violation('wait_init-raised-without-error',
+                                 f"{where}: {res.get('wait_exc')} error={res['error']!r}")
     else:
         if res['error'] is None or isinstance(res['error'], asyncio.CancelledError):
             raise core.Violation('wait_init-raised-without-error',
@@ -536,7 +551,7 @@ def random_spec(rng, quick):
         extra += ['#ia', '#fed']
     r = rng.random()
     if r < 0.25:
-        spec['calc'] = rng.choice(['raise', 'raise', 'undef', 'ok', 'ok'])
+        spec['calc'] = rng.choice(['raise', 'raise', 'undef', 'ok', 'ok', 'shutdown'])
         extra.append('#calc')
         if rng.random() < 0.6:
             extra.append('#astop')
